@@ -1,5 +1,5 @@
 (* One entry point for the harness: request (list Z) -> reply (list Z). *)
-From JP Require Import Base.Json Extract.Wire Extract.WireAst Model.Slice Spec.Slice Model.Ast Model.Eval Spec.Sem Spec.Compare.
+From JP Require Import Base.Json Extract.Wire Extract.WireAst Model.Slice Spec.Slice Model.Ast Model.Eval Spec.Sem Spec.Compare Model.Tokens Model.Lex Model.PyFloat.
 
 Definition iota_json (len : Z) : list json := map (fun k => JNum (NInt (Z.of_nat k))) (seq 0 (Z.to_nat len)).
 Definition enc_sel (r : list (Z * json)) : list Z := enc_list (fun p => fst p :: enc_json (snd p)) r.
@@ -36,10 +36,26 @@ Definition op_cmp (r : list Z) : list Z :=
   match dec_comparand r1 with Some (b, _) => enc_bool (cmp o a b)
   | None => bad_request end | None => bad_request end | None => bad_request end.
 
+Definition enc_token (t : token) : list Z := ttype_code (ty t) :: tidx t :: enc_str (tval t).
+(* [1; query text] *)
+Definition op_tokenize (r : list Z) : list Z :=
+  match dec_str r with Some (q, _) => enc_result (enc_list enc_token) (m_tokenize q) | None => bad_request end.
+
+(* [20; text] -> float(text) and int(float(text)) *)
+Definition op_float (r : list Z) : list Z :=
+  match dec_str r with
+  | Some (q, _) => match py_float q with
+                   | None => [0]
+                   | Some x => 1 :: enc_num x ++ enc_opt (fun z => [z]) (py_int_of_float x)
+                   end
+  | None => bad_request end.
+
 (* opcodes: model side 1..99, specification side 101..199 *)
 Definition dispatch (req : list Z) : list Z :=
   match req with
+  | 1 :: r => op_tokenize r
   | 3 :: r => op_find r
+  | 20 :: r => op_float r
   | 103 :: r => op_sem r
   | 106 :: r => op_cmp r
   | 7 :: len :: r =>        (* slice selector on [0, 1, ..., len-1] *)
